@@ -95,7 +95,8 @@ def body_of(raw):
                 "unknownField": good[:-1] + ',"bogusField":{"x":1}}',
                 "dupField": good[:-1] + ',"status":{"dup":"1"}}' if "status" in base_response(cfg) else good[:-1] + ',"relatedResources":[]}',
                 }.get(b, good)
-        code = {"http500": 500, "http404": 404, "http302": 302, "http204": 204}.get(b, 200)
+        code = {"http500": 500, "http404": 404, "http302": 302, "http204": 204,
+                "etagPoison500": 500, "etagPoison404": 404, "etagPoison201": 201}.get(b, 200)
         return code, text
     doc = copy.deepcopy(base_response(cfg))
     for m in (raw["m1"], raw["m2"]):
@@ -108,11 +109,17 @@ def convert(raw, sid):
     cfg = raw["cfg"]
     code, text = body_of(raw)
     mutated = {"prog": "raw", "code": code, "body": text}
+    etag = raw["body"].startswith("etag")
+    if etag:
+        mutated["headers"] = {"ETag": "E1"}
+        mutated["ifNoneMatch"] = {"code": 304}
     good_child = {"res": "things", "name": "a", "labels": {"app": "x"}, "spec": {"f1": "v1"}}
     good = {"prog": "const", "children": [good_child], "status": {"n": "1"}}
     dec = cfg in ("decorator", "decoratorFinalize")
     kind = "decorator" if dec else "composite"
     c = {"kind": kind, "parentRes": "parents", "children": [{"res": "things", "method": "InPlace"}], "strict": raw["mode"] == "strict"}
+    if etag:
+        c["etag"] = True
     parent = {"res": "parents", "name": "p", "uid": "p1"}
     owned = {"res": "things", "name": "x", "uid": "c-x", "labels": {"app": "x"}, "spec": {"f1": "v1"}, "la": {"f1": "v1"},
              "owners": [{"uid": "p1", "kind": "Parent", "name": "p", "ctrl": True}]}
